@@ -315,6 +315,11 @@ func main() {
 				for _, g := range []string{"x", "]", "}", ",", "1", "\"", ":", "\x00", "n"} {
 					vars = append(vars, t+g, t+" "+g)
 				}
+				// one character before or after the text: every byte value and every Unicode space
+				// (JSON knows four white space characters; the others make the text malformed)
+				for _, e := range edgeChars {
+					vars = append(vars, e+t, t+e)
+				}
 				var cnt int64
 				for _, m := range vars {
 					if jsonref.Canon(m).OK {
@@ -541,8 +546,24 @@ func malKind(orig, m string) string {
 	if len(m) < len(orig) {
 		return "truncated"
 	}
+	if strings.HasSuffix(m, orig) {
+		return "leading-data"
+	}
 	return "trailing-data"
 }
+
+// edgeChars: every single byte and every Unicode white space character (unicode.IsSpace and the
+// byte order mark), as UTF-8.
+var edgeChars = func() []string {
+	var out []string
+	for b := 0; b < 256; b++ {
+		out = append(out, string([]byte{byte(b)}))
+	}
+	for _, r := range []rune{0x85, 0xA0, 0x1680, 0x2000, 0x2001, 0x2002, 0x2003, 0x2004, 0x2005, 0x2006, 0x2007, 0x2008, 0x2009, 0x200A, 0x2028, 0x2029, 0x202F, 0x205F, 0x3000, 0xFEFF, 0x200B} {
+		out = append(out, string(r))
+	}
+	return out
+}()
 
 func trunc(s string, n int) string {
 	if len(s) > n {
